@@ -126,6 +126,17 @@ def gen_coeff_keys(info):
         content = fh.read()
     table = json.loads(content)
     md5 = hashlib.md5(content).hexdigest()
+    # JSON objects with a key written twice: json.load keeps the last one silently - a duplicated key hides a missing one
+    dups = []
+
+    def _pairs(pairs, _d=dups):
+        seen = {}
+        for k, v in pairs:
+            if k in seen:
+                _d.append(k)
+            seen[k] = v
+        return seen
+    json.loads(content, object_pairs_hook=_pairs)
     names = sorted(set(KLMReader.spacecraft_names.values()) | set(PODReader.spacecraft_names.values()))
     rows = []
     for sat in sorted(table):
@@ -140,7 +151,10 @@ def gen_coeff_keys(info):
     required = (["channel_%s.%s" % (c, k) for c in ("1", "2", "3a") for k in ("dark_count", "gain_switch", "s0", "s1", "s2")] +
                 ["channel_%s.%s" % (c, k) for c in ("3b", "4", "5")
                  for k in ("centroid_wavenumber", "space_radiance", "to_eff_blackbody_intercept", "to_eff_blackbody_slope", "b0", "b1", "b2")] +
-                ["date_of_launch"])
+                ["date_of_launch"] +
+                # the four thermometers and their five polynomial coefficients (read with a default of 0: an absent one would
+                # silently calibrate with a lower-order polynomial)
+                ["thermometer_%d.d%d" % (t, d) for t in (1, 2, 3, 4) for d in range(5)])
     hashes = [(h, v["name"]) for h, v in Calibrator.version_hashs.items()]
     info["shipped_md5"] = md5
     out = [HEADER, "namespace PygacModel.Generated\n",
@@ -149,6 +163,7 @@ def gen_coeff_keys(info):
            "def coeffKeyTable : List (String × List String) := %s\n" % llist(
                ["(%s, [%s])" % (lstr(s), ", ".join(lstr(k) for k in ks)) for s, ks in rows]),
            "def shippedMd5 : String := %s\n" % lstr(md5),
+           "def coeffDuplicateKeys : List String := %s\n" % llist([lstr(k) for k in dups]),
            "def versionHashes : List (String × String) := %s\n" % llist(["(%s, %s)" % (lstr(h), lstr(n)) for h, n in hashes]),
            "end PygacModel.Generated\n"]
     return "CoeffKeys.lean", "".join(out)
